@@ -197,3 +197,27 @@ def vfs():
         return None
     from . import hook
     return hook.VFS
+
+
+_AMASK = {}
+
+
+def char_in(c, alphabet):
+    """c (a 1-character string) is one of the characters of `alphabet` -- one constraint, not a
+    chain of comparisons"""
+    if _core is None:
+        return c in alphabet
+    a = _core.unwrap(alphabet)
+    cs = _core.chars(c)
+    if len(cs) != 1:
+        return False
+    x = cs[0]
+    if type(x) is not _core.SC:
+        return chr(x) in a
+    m = _AMASK.get(a)
+    if m is None:
+        m = 0
+        for ch in a:
+            m |= 1 << ord(ch)
+        _AMASK[a] = m
+    return _core.U(x.var, _core.pre(x.tab, m))
